@@ -225,6 +225,22 @@ def judge(seed, z_force=None):
             w2 = StockholderWeight.from_arrays(els[:k], pos[:k], els[k:], pos[k:], background=bg).weights(pts)
             if not np.allclose(w2, ra / (ra + rb + np.float32(bg)), rtol=rt):
                 return f"StockholderWeight.from_arrays(background={bg}) is not interior/(interior+exterior+background)"
+        # one density object asked twice through the same coordinate buffer, moved in place between the calls (a grid being swept):
+        # the answer is a function of the coordinates it is given now
+        dens = PromoleculeDensity((els, pos))
+        sw = StockholderWeight(PromoleculeDensity((els[:k], pos[:k])), PromoleculeDensity((els[k:], pos[k:])))
+        buf = pts.copy()
+        dens.rho(buf)
+        sw.weights(buf)
+        buf += np.array([0.37, -0.21, 0.13], dtype=np.float32)
+        r_again, w_again = dens.rho(buf), sw.weights(buf)
+        fresh = buf.copy()
+        r_fresh = PromoleculeDensity((els, pos)).rho(fresh)
+        w_fresh = StockholderWeight(PromoleculeDensity((els[:k], pos[:k])), PromoleculeDensity((els[k:], pos[k:]))).weights(fresh)
+        if not np.array_equal(r_again, r_fresh):
+            return "rho(points) on a buffer that was moved in place since the previous call is not the density at the buffer's current coordinates"
+        if not np.array_equal(w_again, w_fresh):
+            return "weights(points) on a buffer that was moved in place since the previous call are not the weights at the buffer's current coordinates"
         # the value at a point does not depend on how many other points are evaluated in the same call
         if seed % 4 == 0:
             big = np.tile(pts, (70001 // len(pts) + 1, 1))[:70001]
